@@ -110,7 +110,7 @@ UnlockForFees(st, payer, fee) ==
 ------------------------------------------------------------------------------
 (* Parameter validity as the property states it, over the integers *)
 WellFormedDenom(d) == d \in {"nund", "other", "stake", "foo"}
-WellFormedAddr(st, a) == a \in (DOMAIN st.ent.locked) \cup {"V", "ent", "gov", "stream", "feecol", "distr"}
+WellFormedAddr(st, a) == a \in (DOMAIN st.ent.locked) \cup {"V", "ent", "gov", "grp", "stream", "feecol", "distr"}
 EntParamsValid(st, p) ==
   /\ WellFormedDenom(p.denom)
   /\ p.min >= 1 /\ p.limit >= 1
